@@ -579,3 +579,32 @@ func ErrClass(err error) string {
 	}
 	return "other:" + err.Error()
 }
+
+// ---------------------------------------------------------------- C02: forging from public information
+
+func (r *Ref) CliClone(s, s2 string) { r.call("cli.clone %s %s", s, s2) }
+
+// Forged is what a man in the middle without the bridge's private key can compute.
+type Forged struct {
+	YRepr, Auth, KeySeed []byte
+	OK                   bool
+}
+
+// ForgeNtor: ephemeral key from tape, DH with the impostor's own identity key bPriv, transcript
+// naming bTranscript.
+func (r *Ref) ForgeNtor(nodeID, bTranscript, bPriv, xRepr, tape []byte) Forged {
+	f := r.call("forge.ntor %s %s %s %s %s", vlib.Hex(nodeID), vlib.Hex(bTranscript), vlib.Hex(bPriv), vlib.Hex(xRepr), vlib.Hex(tape))
+	if len(f) == 5 && f[0] == "ok" {
+		return Forged{YRepr: vlib.UnHex(f[1]), Auth: vlib.UnHex(f[2]), KeySeed: vlib.UnHex(f[3]), OK: true}
+	}
+	return Forged{}
+}
+
+// ForgeBlob: Y'|AUTH|pad|M_S|MAC_S with mark and MAC valid under idPub|nodeID for hour.
+func (r *Ref) ForgeBlob(nodeID, idPub, yRepr, auth, pad []byte, hour int64) []byte {
+	f := r.call("forge.blob %s %s %s %s %s %d", vlib.Hex(nodeID), vlib.Hex(idPub), vlib.Hex(yRepr), vlib.Hex(auth), vlib.Hex(pad), hour)
+	if len(f) == 2 && f[0] == "ok" {
+		return vlib.UnHex(f[1])
+	}
+	return nil
+}
